@@ -343,3 +343,24 @@ func ext۰fmt۰Sprint(fr *frame, args []value) value {
 	}
 	return buf.String()
 }
+
+// extMathRound models math.Trunc / Floor / Ceil: an exactly converted integer is its own rounding; any other
+// symbolic double is rounded by the solver's fp.roundToIntegral.
+func extMathRound(mode string, concrete func(float64) float64) externalFn {
+	return func(fr *frame, args []value) value {
+		sy, ok := args[0].(*sym)
+		if !ok {
+			return concrete(args[0].(float64))
+		}
+		if sy.origin != nil {
+			return sy
+		}
+		return &sym{e: "(fp.roundToIntegral " + mode + " " + sy.e + ")", k: symFP}
+	}
+}
+
+func init() {
+	externals["math.Trunc"] = extMathRound("RTZ", math.Trunc)
+	externals["math.Floor"] = extMathRound("RTN", math.Floor)
+	externals["math.Ceil"] = extMathRound("RTP", math.Ceil)
+}
